@@ -315,6 +315,11 @@ class Tr:
                 if i < 0:
                     i += n
                 return b, proj(c, i, n), t[1][i]
+            if (isinstance(t, tuple) and t[0] == "List" and isinstance(node.slice, ast.Slice) and node.slice.lower is None
+                    and node.slice.upper is None and isinstance(node.slice.step, ast.UnaryOp)
+                    and isinstance(node.slice.step.op, ast.USub) and isinstance(node.slice.step.operand, ast.Constant)
+                    and node.slice.step.operand.value == 1):
+                return b, f"(List.reverse {c})", t    # x[::-1]
             if isinstance(t, tuple) and t[0] == "List":
                 bi, ci, ti = self.E(node.slice, env)
                 ci = self.as_int(ci, ti)
@@ -1111,6 +1116,12 @@ class Tr:
             if fn == "reversed":
                 b, c, t = self.E(node.args[0], env)
                 return b, f"(List.reverse {c})", t[1]
+            if fn == "zip" and len(node.args) == 2:
+                b1, c1, t1 = self.E(node.args[0], env)
+                b2, c2, t2 = self.E(node.args[1], env)
+                if not all(isinstance(t, tuple) and t[0] == "List" for t in (t1, t2)):
+                    raise Untranslatable(f"zip of {t1}, {t2}")
+                return b1 + b2, f"(List.zip {c1} {c2})", ("Tuple", (t1[1], t2[1]))
         b, c, t = self.E(node, env)
         if not (isinstance(t, tuple) and t[0] == "List"):
             raise Untranslatable(f"iteration over {t}")
@@ -1559,6 +1570,15 @@ def driver_source(specs, status, src_root):
                                ' (fun g => match g with | none => Except.error Err.other | some k => '
                                'if ((fromJ (argAt args 12)) : List Nat).contains k then Except.error Err.other '
                                'else Except.ok ((((fromJ (argAt args 13)) : List (Nat × Nat)).lookup k))) ' + me.replace("K", "14") + ")")
+            continue
+        if spec.get("group") == "GridCompat":
+            # `np.allclose` on two axes: exact equality (the validation uses exactly representable coordinates)
+            imports.append(f"import FinamModel.Translated.{spec['lean']}")
+            first = " ".join(f"(fromJ (argAt args {i}))" for i in range(15))
+            if spec["lean"] == "StructuredGrid_compatible_with":
+                cases.append('  | "StructuredGrid_compatible_with" => toJ (Tr.StructuredGrid_compatible_with ' + first + " (fun a b => a == b))")
+            else:
+                cases.append('  | "StructuredGrid___eq__" => toJ (Tr.StructuredGrid___eq__ ' + first + " (fun a b => a == b) (fromJ (argAt args 15)))")
             continue
         if spec["lean"] == "connect_components":
             # `comp.connect`: scripted — the world holds, per component, the statuses its further connect calls will report
